@@ -1,0 +1,13 @@
+//go:build verif
+
+package cli
+
+import "io"
+
+// VerifRun runs the command in-process with the given arguments and streams.
+func VerifRun(args []string, stdin io.Reader, stdout, stderr io.Writer) int {
+	return (&cli{inStream: stdin, outStream: stdout, errStream: stderr}).run(args)
+}
+
+// VerifSetDefaultModulePaths controls whether ~/.jq and the default library paths are consulted.
+func VerifSetDefaultModulePaths(b bool) { addDefaultModulePaths = b }
